@@ -40,10 +40,11 @@ GAPS = [1, 2, 3, 4, 7]
 def generate(tape, tier="quick"):
     gridded = tape.chance(1, 2)
     g = gen_structured(tape, max_dim=2, max_len=4) if gridded else None
-    su = tape.choice(["m", "km", "mm"])
+    group = ["K", "degC"] if tape.chance(1, 4) else ["m", "km", "mm"]      # offset units / multiplicative units
+    su = tape.choice(group)
     n_cons = tape.weighted([(1, 3), (2, 2)])
-    cons = [{"units": tape.choice([None, "m", "km", "mm"]), "grid": tape.choice(["same", "unset"]),
-             "scale": tape.chance(1, 5)} for _ in range(n_cons)]
+    cons = [{"units": tape.choice([None] + group), "grid": tape.choice(["same", "unset"]),
+             "scale": tape.chance(1, 5) and group[0] != "K"} for _ in range(n_cons)]
     events = []
     t = 0
     pubs = []
@@ -54,7 +55,7 @@ def generate(tape, tier="quick"):
             form = tape.choice(G_FORMS if gridded else NG_FORMS)
             if pubs:
                 t += tape.choice(GAPS)
-            events.append(["PUSH", t, k, form, tape.choice(["m", "km", "mm"])])
+            events.append(["PUSH", t, k, form, tape.choice(group)])
             k += 1
             if form not in ("quantity_bad", "bad_shape", "same_obj", "view"):
                 pubs.append(t)
